@@ -100,7 +100,7 @@ func inSearchRect(lat1, lon1, lat2, lon2, r float64) bool {
 // RStep is one write. Col 0 = the fenced collection ("fleet"), 1 = the other
 // collection (the roam target when the case is not SameKey, else unrelated).
 type RStep struct {
-	Op   string  `json:"op"` // set del
+	Op   string  `json:"op"` // set del drop pdel(all ids) setex(SET .. EX 0.05, then wait for the expiry)
 	Col  int     `json:"col"`
 	ID   string  `json:"id"`
 	Lat  float64 `json:"lat,omitempty"`
@@ -138,7 +138,10 @@ type RoamCase struct {
 	NoDwell bool    `json:"nodwell"`
 	Match   string  `json:"match,omitempty"`
 	Live    bool    `json:"live"`
-	Steps   []RStep `json:"steps"`
+	// Pre: the first Pre steps run BEFORE the fence and its observers are
+	// created, so the fenced / roam collections already exist at creation time
+	Pre   int     `json:"pre,omitempty"`
+	Steps []RStep `json:"steps"`
 }
 
 func (cs RoamCase) fenceTokens(fleet, other string) []string {
@@ -175,6 +178,9 @@ type entry struct {
 func (e entry) key() string {
 	if e.Kind == "del" {
 		return "del " + e.ID
+	}
+	if e.Kind == "drop" {
+		return "drop"
 	}
 	return fmt.Sprintf("%s %s@%s,%s -> %s@%s,%s", e.Kind, e.ID, ff(e.Lat), ff(e.Lon), e.NID, ff(e.NLat), ff(e.NLon))
 }
@@ -225,6 +231,31 @@ func (m *rmodel) neighbours(id string, p pos) map[string]float64 {
 // apply executes a step on the model and returns the expected entries.
 func (m *rmodel) apply(s RStep) []entry {
 	col := m.cols[s.Col]
+	switch s.Op {
+	case "drop":
+		if len(col) == 0 {
+			return nil
+		}
+		m.cols[s.Col] = map[string]pos{}
+		if s.Col == 0 {
+			return []entry{{Kind: "drop"}}
+		}
+		return nil
+	case "pdel":
+		var out []entry
+		var ids []string
+		for id := range col {
+			ids = append(ids, id)
+		}
+		sort.Strings(ids)
+		for _, id := range ids {
+			delete(col, id)
+			if s.Col == 0 && globOK(m.cs.Match, id) {
+				out = append(out, entry{Kind: "del", ID: id})
+			}
+		}
+		return out
+	}
 	if s.Op == "del" {
 		_, ok := col[s.ID]
 		delete(col, s.ID)
@@ -343,9 +374,12 @@ func (g *rgen) add(s RStep) {
 	if o, ok := g.cols[s.Col][s.ID]; ok {
 		g.lastOld = &o
 	}
-	if s.Op == "del" {
+	switch s.Op {
+	case "del", "setex":
 		delete(g.cols[s.Col], s.ID)
-	} else {
+	case "drop", "pdel":
+		g.cols[s.Col] = map[string]pos{}
+	default:
 		g.cols[s.Col][s.ID] = pos{s.Lat, s.Lon}
 	}
 }
@@ -396,6 +430,109 @@ func genRoam(rt *rapid.T, maxSteps int) RoamCase {
 			}
 		}
 	}
+	// place creates/moves (col,id) to a position constructed from an existing object
+	place := func(col int, id, op string) bool {
+		placed := false
+		for try := 0; try < 6 && !placed; try++ {
+			// anchor: an existing object (preferably of the roam collection), else the base
+			var anchors []pos
+			var names []string
+			for c := 0; c < 2; c++ {
+				var ks []string
+				for k := range g.cols[c] {
+					if k != probeID && !(c == col && k == id) {
+						ks = append(ks, k)
+					}
+				}
+				sort.Strings(ks)
+				for _, k := range ks {
+					anchors = append(anchors, g.cols[c][k])
+					names = append(names, fmt.Sprintf("%d/%s", c, k))
+				}
+			}
+			a, an := base, "base"
+			if len(anchors) > 0 {
+				k := intn(rt, "anchor", 0, len(anchors)-1)
+				a, an = anchors[k], names[k]
+			}
+			ratio := pick(rt, "ratio", ratios) * (1 + unif(rt, "ratio-jitter", -0.0004, 0.0004))
+			brg := pick(rt, "bearing", bearings) + unif(rt, "bearing-jitter", -3, 3)
+			la, lo := destination(a.lat, a.lon, ratio*cs.Radius, brg)
+			p := pos{round8(la), round8(lo)}
+			if g.clear(col, id, p) {
+				g.add(RStep{Op: op, Col: col, ID: id, Lat: p.lat, Lon: p.lon, Note: fmt.Sprintf("%s d/r=%.4f brg=%.1f", an, ratio, brg)})
+				placed = true
+			}
+		}
+		return placed
+	}
+	idsOf := func(col int) []string {
+		if col == 1 {
+			return otherIDs
+		}
+		return fleet
+	}
+	rc := 1
+	if cs.SameKey {
+		rc = 0
+	}
+	// in 60% of the cases the collections are populated BEFORE the fence exists
+	if pct(rt, "pre") < 60 {
+		n := intn(rt, "pre-n", 2, 5)
+		for i := 0; i < n; i++ {
+			col := rc
+			if pct(rt, "pre-col") < 35 {
+				col = 1 - rc
+			}
+			place(col, pick(rt, "pre-id", idsOf(col)), "set")
+		}
+		cs.Pre = len(cs.Steps)
+	}
+	// removal of a whole collection (DROP, PDEL *, DEL of every object down to
+	// the last, expiry of the only object) followed by re-population: the fence
+	// must keep looking at the collection that exists NOW under that key
+	removals := 0
+	remove := func() {
+		col := rc
+		if pct(rt, "rm-col") < 35 {
+			col = 1 - rc
+		}
+		if len(g.cols[col]) == 0 {
+			return
+		}
+		removals++
+		switch m := pct(rt, "rm-how"); {
+		case m < 40:
+			g.add(RStep{Op: "drop", Col: col, Note: "remove collection: DROP"})
+			sync(false)
+		case m < 65:
+			g.add(RStep{Op: "pdel", Col: col, Note: "remove collection: PDEL *"})
+			sync(false)
+		default:
+			var ids []string
+			for id := range g.cols[col] {
+				if id != probeID {
+					ids = append(ids, id)
+				}
+			}
+			sort.Strings(ids)
+			for _, id := range ids {
+				g.add(RStep{Op: "del", Col: col, ID: id, Note: "remove collection: DEL down to the last object"})
+				sync(false)
+			}
+		}
+		if !cs.Live && removals == 1 && pct(rt, "rm-expiry") < 12 {
+			// the collection comes back with a single object that then expires
+			if place(col, pick(rt, "ex-id", idsOf(col)), "setex") {
+				sync(false)
+			}
+		}
+		for i, n := 0, intn(rt, "repop", 1, 3); i < n; i++ {
+			if place(col, pick(rt, "repop-id", idsOf(col)), "set") {
+				sync(false)
+			}
+		}
+	}
 	steps := intn(rt, "steps", 4, maxSteps)
 	for i := 0; i < steps; i++ {
 		col := 0
@@ -407,6 +544,10 @@ func genRoam(rt *rapid.T, maxSteps int) RoamCase {
 			ids = otherIDs
 		}
 		id := pick(rt, "id", ids)
+		if pct(rt, "remove") < 9 {
+			remove()
+			continue
+		}
 		if pct(rt, "del") < 6 {
 			if _, ok := g.cols[col][id]; ok {
 				g.add(RStep{Op: "del", Col: col, ID: id})
@@ -443,39 +584,7 @@ func genRoam(rt *rapid.T, maxSteps int) RoamCase {
 			sync(false)
 			continue
 		}
-		placed := false
-		for try := 0; try < 6 && !placed; try++ {
-			// anchor: an existing object (preferably of the roam collection), else the base
-			var anchors []pos
-			var names []string
-			for c := 0; c < 2; c++ {
-				var ks []string
-				for k := range g.cols[c] {
-					if k != probeID && !(c == col && k == id) {
-						ks = append(ks, k)
-					}
-				}
-				sort.Strings(ks)
-				for _, k := range ks {
-					anchors = append(anchors, g.cols[c][k])
-					names = append(names, fmt.Sprintf("%d/%s", c, k))
-				}
-			}
-			a, an := base, "base"
-			if len(anchors) > 0 {
-				k := intn(rt, "anchor", 0, len(anchors)-1)
-				a, an = anchors[k], names[k]
-			}
-			ratio := pick(rt, "ratio", ratios) * (1 + unif(rt, "ratio-jitter", -0.0004, 0.0004))
-			brg := pick(rt, "bearing", bearings) + unif(rt, "bearing-jitter", -3, 3)
-			la, lo := destination(a.lat, a.lon, ratio*cs.Radius, brg)
-			p := pos{round8(la), round8(lo)}
-			if g.clear(col, id, p) {
-				g.add(RStep{Op: "set", Col: col, ID: id, Lat: p.lat, Lon: p.lon, Note: fmt.Sprintf("%s d/r=%.4f brg=%.1f", an, ratio, brg)})
-				placed = true
-			}
-		}
-		if placed {
+		if place(col, id, "set") {
 			sync(false)
 		}
 	}
@@ -523,7 +632,7 @@ func parseRoam(raw string) rgot {
 		return s
 	}
 	g.Cmd, g.Detect, g.Hook, g.Key, g.ID = str("command"), str("detect"), str("hook"), str("key"), str("id")
-	if g.Cmd == "del" {
+	if g.Cmd == "del" || g.Cmd == "drop" {
 		return g
 	}
 	var ok bool
@@ -563,6 +672,9 @@ func parseRoam(raw string) rgot {
 func (g rgot) key() string {
 	if g.Cmd == "del" {
 		return "del " + g.ID
+	}
+	if g.Cmd == "drop" {
+		return "drop"
 	}
 	return fmt.Sprintf("%s %s@%s,%s -> %s@%s,%s", g.Kind, g.ID, ff(g.Lat), ff(g.Lon), g.NID, ff(g.NLat), ff(g.NLon))
 }
@@ -619,7 +731,7 @@ func compareStep(cs RoamCase, exp []entry, got []rgot, hook, fleet, roamKey stri
 		if g.Hook != hook || g.Key != fleet {
 			return "roam:envelope", fmt.Sprintf("hook/key %q/%q, want %q/%q: %s", g.Hook, g.Key, hook, fleet, g.Raw)
 		}
-		if g.Cmd == "del" {
+		if g.Cmd == "del" || g.Cmd == "drop" {
 			if _, ok := want[g.key()]; !ok || seen[g.key()] {
 				return "roam:unexpected-del", "unexpected message " + g.Raw + ctx
 			}
@@ -698,6 +810,38 @@ func runRoam(t failer, c *ev.Collector, cs RoamCase) (info roamInfo) {
 	v, err := ctl.Do("FLUSHDB")
 	mustOK(v, err, "FLUSHDB")
 
+	m := &rmodel{cs: cs, cols: [2]map[string]pos{{}, {}}}
+	buildArgs := func(n int, s RStep) []string {
+		switch s.Op {
+		case "del":
+			return []string{"DEL", keys[s.Col], s.ID}
+		case "drop":
+			return []string{"DROP", keys[s.Col]}
+		case "pdel":
+			return []string{"PDEL", keys[s.Col], "*"}
+		}
+		args := []string{"SET", keys[s.Col], s.ID}
+		switch {
+		case s.Op == "setex":
+			args = append(args, "EX", "0.05")
+		case s.Extra == "field":
+			args = append(args, "FIELD", "speed", strconv.Itoa(n+1))
+		case s.Extra == "ex":
+			args = append(args, "EX", "1000")
+		}
+		return append(args, "POINT", coordText(s.Lat, s.Alt), coordText(s.Lon, s.Alt))
+	}
+	// steps that run before the fence exists: its collections are there when
+	// the hook / channel / live fence is created
+	for n := 0; n < cs.Pre && n < len(cs.Steps); n++ {
+		v, err := ctl.Do(buildArgs(n, cs.Steps[n])...)
+		mustOK(v, err, "pre-population")
+		m.apply(cs.Steps[n])
+	}
+	if cs.Pre > 0 {
+		info.labels["fence-created-on-populated-collections"]++
+	}
+
 	tok := cs.fenceTokens(keys[0], keys[1])
 	chanName, hookName := prefix+":c", prefix+":h"
 	v, err = ctl.Do(append([]string{"SETCHAN", chanName}, tok...)...)
@@ -730,25 +874,16 @@ func runRoam(t failer, c *ev.Collector, cs RoamCase) (info roamInfo) {
 		}
 	}
 
-	m := &rmodel{cs: cs, cols: [2]map[string]pos{{}, {}}}
 	var expAll [][]entry // per step
 	var chanAll [][]rgot
 	liveSeen := 0
 	var livePending [][]entry // steps since the last barrier
+	removedRoam := false      // the roam collection was removed (and possibly re-created) after the fence was made
 	for n, s := range cs.Steps {
-		var args []string
-		if s.Op == "del" {
-			args = []string{"DEL", keys[s.Col], s.ID}
-		} else {
-			args = []string{"SET", keys[s.Col], s.ID}
-			switch s.Extra {
-			case "field":
-				args = append(args, "FIELD", "speed", strconv.Itoa(n+1))
-			case "ex":
-				args = append(args, "EX", "1000")
-			}
-			args = append(args, "POINT", coordText(s.Lat, s.Alt), coordText(s.Lon, s.Alt))
+		if n < cs.Pre {
+			continue
 		}
+		args := buildArgs(n, s)
 		corner := 0
 		v, err := ctl.Do(args...)
 		if err != nil {
@@ -757,9 +892,46 @@ func runRoam(t failer, c *ev.Collector, cs RoamCase) (info roamInfo) {
 		if v.IsErr() {
 			fail("unexpected-error", fmt.Sprintf("step %d %s: %s", n, t38.CmdString(args), v))
 		}
+		before := len(m.cols[s.Col])
 		exp := m.apply(s)
 		if s.Op == "set" && s.Col == 0 && globOK(cs.Match, s.ID) {
 			corner = m.cornerCount(s.ID, pos{s.Lat, s.Lon})
+		}
+		if s.Op == "setex" {
+			// wait until the background expiry has deleted the object again
+			deadline := time.Now().Add(20 * time.Second)
+			for {
+				v, err := ctl.Do("EXISTS", keys[s.Col], s.ID)
+				if err != nil {
+					fail("transport", "EXISTS: "+err.Error())
+				}
+				if v.IsErr() || v.Int == 0 {
+					break
+				}
+				if time.Now().After(deadline) {
+					c.Inconclusive("object with EX 0.05 still present after 20s")
+					return info
+				}
+				time.Sleep(5 * time.Millisecond)
+			}
+			exp = append(exp, m.apply(RStep{Op: "del", Col: s.Col, ID: s.ID})...)
+		}
+		if (before > 0 || s.Op == "setex") && len(m.cols[s.Col]) == 0 {
+			how := s.Op
+			switch s.Op {
+			case "del":
+				how = "del-of-last-object"
+			case "setex":
+				how = "expiry-of-only-object"
+			}
+			role := "fleet"
+			if s.Col == 1 {
+				role = "other"
+			}
+			info.labels["collection-removed:"+role+":"+how]++
+			if (cs.SameKey && s.Col == 0) || (!cs.SameKey && s.Col == 1) {
+				removedRoam = true
+			}
 		}
 		expAll = append(expAll, exp)
 		// channel: a PUBLISH sentinel after every step delimits the step's messages exactly
@@ -788,7 +960,7 @@ func runRoam(t failer, c *ev.Collector, cs RoamCase) (info roamInfo) {
 			fail(k, fmt.Sprintf("step %d %s (%s), observer channel, fence %s: %s", n, t38.CmdString(args[2:]), s.Note, strings.Join(tok[2:], " "), what))
 		}
 		// evidence
-		if s.Op == "set" && s.Col == 0 && s.ID != probeID {
+		if (s.Op == "set" || s.Op == "setex") && s.Col == 0 && s.ID != probeID {
 			info.steps++
 			info.entries += len(exp)
 			nb, fa := 0, 0
@@ -825,7 +997,13 @@ func runRoam(t failer, c *ev.Collector, cs RoamCase) (info roamInfo) {
 					info.labels["reset-step-with-nearby"]++
 				}
 			}
-			if (corner > 0 || nb+fa >= 2 || (s.Reset && nb+fa >= 1)) && !s.Sync {
+			if removedRoam && nb+fa > 0 {
+				info.labels["step-with-entries-after-roam-collection-was-removed"]++
+				if cs.Pre > 0 {
+					info.labels["...and-fence-created-on-existing-collection"]++
+				}
+			}
+			if (corner > 0 || nb+fa >= 2 || (s.Reset && nb+fa >= 1) || (removedRoam && cs.Pre > 0 && nb+fa >= 1)) && !s.Sync {
 				info.nontriv = append(info.nontriv, fmt.Sprintf("%s|%v|%v|r=%s|%s|c=%d|n=%d|f=%d", cs.Pattern, cs.SameKey, cs.NoDwell, ff(cs.Radius), s.Note, corner, nb, fa))
 			}
 		}
@@ -918,7 +1096,7 @@ func runRoam(t failer, c *ev.Collector, cs RoamCase) (info roamInfo) {
 func TestC20_Roam(t *testing.T) {
 	c := ev.New("C20", "roam", "exploration")
 	t.Cleanup(c.Flush)
-	c.Rule("per case one fence NEARBY fleet [MATCH g] FENCE [NODWELL] ROAM key2 pattern meters (key2 = fleet or another collection; pattern *, prefix glob, class glob or exact id; radius 200 m..50 km log-uniform; anywhere |lat|<=70) installed as channel + webhook (+ live connection with a barrier probe in part of the cases); 4..N steps, each SET moves/creates one point object of either collection to a position constructed from an existing object: distance d/r in {0.05,0.3,0.6,0.9,0.999,1.001,1.1,1.2,1.3,1.396,1.45,2.5} (jittered 4e-4) at bearing k*45 deg +-3 (45/135/225/315 with 1<d/r<1.41 = inside the search rectangle but outside the circle), occasionally DEL, and ~20% re-SETs of a fleet object at its exact current coordinates (same text, trailing zeros or exponent spelling; optionally with FIELD or EX), half of them right after a roam-collection object was moved into/out of its radius; every position keeps |d/r-1|>=1e-4 to every other object. Oracle: own haversine over the model's positions: nearby = other pattern-matching objects of key2 with d(new)<=r (minus, under NODWELL, those with d(old)<=r), faraway = d(old)<=r and d(new)>r, one message per entry, nothing else, meters = floor(d*1000)/1000 within 1e-3+1e-9 d; compared per step (a PUBLISH sentinel after every write delimits the channel stream). Non-trivial: a step whose new position has >=1 pattern-matching neighbour in the corner region or that yields >=2 entries, or a re-SET in place that yields >=1 entry; distinct by (pattern, same/other key, NODWELL, radius, construction, counts).")
+	c.Rule("per case one fence NEARBY fleet [MATCH g] FENCE [NODWELL] ROAM key2 pattern meters (key2 = fleet or another collection; pattern *, prefix glob, class glob or exact id; radius 200 m..50 km log-uniform; anywhere |lat|<=70) installed as channel + webhook (+ live connection with a barrier probe in part of the cases); 4..N steps, each SET moves/creates one point object of either collection to a position constructed from an existing object: distance d/r in {0.05,0.3,0.6,0.9,0.999,1.001,1.1,1.2,1.3,1.396,1.45,2.5} (jittered 4e-4) at bearing k*45 deg +-3 (45/135/225/315 with 1<d/r<1.41 = inside the search rectangle but outside the circle), occasionally DEL, and ~20% re-SETs of a fleet object at its exact current coordinates (same text, trailing zeros or exponent spelling; optionally with FIELD or EX), half of them right after a roam-collection object was moved into/out of its radius; in 60% of the cases 2-5 objects are SET before the fence is created (collections exist at creation time); ~9% of the steps remove a whole collection (fleet or the roam collection) by DROP, PDEL * or DEL down to the last object (rarely followed by a single SET EX 0.05 that expires) and re-populate it; every position keeps |d/r-1|>=1e-4 to every other object. Oracle: own haversine over the model's positions: nearby = other pattern-matching objects of key2 with d(new)<=r (minus, under NODWELL, those with d(old)<=r), faraway = d(old)<=r and d(new)>r, one message per entry, nothing else, meters = floor(d*1000)/1000 within 1e-3+1e-9 d; compared per step (a PUBLISH sentinel after every write delimits the channel stream). Non-trivial: a step whose new position has >=1 pattern-matching neighbour in the corner region or that yields >=2 entries, or a re-SET in place that yields >=1 entry, or a step with >=1 entry after the roam collection was removed and re-created under a fence that was created on an existing collection; distinct by (pattern, same/other key, NODWELL, radius, construction, counts).")
 	c.Assume("message order within a step (nearby before faraway, by distance) is not part of the property: labelled, not judged; FSET/EXPIRE on a roam fence are out of scope")
 	maxSteps := ev.Pick(16, 24)
 	ev.Rapid("roam", ev.Pick(2500, 12000))
